@@ -15,7 +15,7 @@ export GOCACHE=${VERIF_GOCACHE:-/verif/.cache/go-build}
 export VERIF_REPO_HEAD=$(git -C $REPO rev-parse --short HEAD 2>/dev/null)
 export VERIF_REPO_DIRTY=$(git -C $REPO status --porcelain 2>/dev/null | grep -v '^??' | wc -l)
 lc=$(echo "$ID" | tr 'A-Z' 'a-z')
-WORK=$VERIF/.work/$ID
+WORK=${VERIF_WORKDIR:-$VERIF/.work}/$ID
 mkdir -p "$WORK" "$VERIF/.work/bin" "$VERIF/evidence" "$VERIF/replays"
 cd "$VERIF/go" || exit 2
 if [ ! -d "cmd/$lc" ]; then echo "CHECK-ERROR: no harness for $ID" >&2; exit 2; fi
@@ -31,7 +31,14 @@ if [ -f "specs/$ID.json" ]; then
   export VERIF_OVERLAY="$WORK/overlay.json"
 fi
 BIN="$VERIF/.work/bin/$lc"
-if ! go build "${OVERLAY[@]}" -o "$BIN" "./cmd/$lc" 2> "$WORK/build.log"; then
+MODFILE=()
+if [ "$REPO" != "/repo" ]; then
+  # scratch copy of golib (seeded-fault runs): same module, other replace target
+  sed "s#=> /repo#=> $REPO#" go.mod > "$WORK/alt.mod"; cp go.sum "$WORK/alt.sum"
+  MODFILE=(-modfile "$WORK/alt.mod")
+  BIN="$WORK/$lc.alt"
+fi
+if ! go build "${MODFILE[@]}" "${OVERLAY[@]}" -o "$BIN" "./cmd/$lc" 2> "$WORK/build.log"; then
   cat "$WORK/build.log" >&2
   echo "CHECK-ERROR: harness for $ID does not build against the current /repo tree" >&2
   exit 2
